@@ -46,6 +46,132 @@ def ForceIdem (env : RunEnv) : Prop := ∀ n p, env.force n (env.force n p) = en
 /-- number of pids handed out up to and including step `r` -/
 def npidAt (env : RunEnv) (r : Nat) : Nat := (releasedUpTo env r).length
 
+/-! ### helpers -/
+
+/-- undo the renumbering of the steps -/
+def unshift (r : Nat) (x : Int × List RP) : Int × List RP := (x.1 - (r : Int), x.2)
+
+/-- from step 1 of the restarted run on, one `update` of the restarted run is the `update` of the
+    uninterrupted run `r` steps later -/
+theorem shift_update (env : RunEnv) (r : Nat) (n : Int) (hn : 1 ≤ n) (s s' : RState)
+    (hp : s'.parts = s.parts) (hc : s'.npid = s.npid) :
+    (update (shiftEnv env r) n s').parts = (update env (n + r) s).parts ∧
+    (update (shiftEnv env r) n s').npid = (update env (n + r) s).npid ∧
+    ∃ L, (update env (n + r) s).records = s.records ++ L ∧
+      (update (shiftEnv env r) n s').records = s'.records ++ L.map (unshift r) ∧
+      ∀ x ∈ L, n + (r : Int) ≤ x.1 := by
+  have hn0 : n ≠ 0 := by omega
+  have hrel : (shiftEnv env r).release n = env.release (n + r) := by simp [shiftEnv, hn0]
+  have hd : doOut (shiftEnv env r) n = doOut env (n + r) := by
+    have h1 : (0 : Int) ≤ n := by omega
+    have h2 : (0 : Int) ≤ n + r := by omega
+    simp [doOut, shiftEnv, h1, h2]
+  have h3 : parts3 (shiftEnv env r) n s' = parts3 env (n + r) s := by
+    unfold parts3 parts2
+    rw [hd, hrel, hp, hc]
+    rfl
+  refine ⟨?_, ?_, ?_⟩
+  · rw [update_parts, update_parts, h3]; rfl
+  · rw [update_npid, update_npid, hrel, hc]
+  · rw [update_records, update_records, hd, h3]
+    by_cases h : doOut env (n + r) = true
+    · refine ⟨[(n + r, parts3 env (n + r) s)], by rw [if_pos h], ?_, by simp⟩
+      rw [if_pos h]
+      simp [unshift]
+    · exact ⟨[], by rw [if_neg h]; simp, by rw [if_neg h]; simp, by simp⟩
+
+theorem shift_updates (env : RunEnv) (r : Nat) : ∀ (k : Nat) (first : Int) (s s' : RState),
+    1 ≤ first → s'.parts = s.parts → s'.npid = s.npid →
+    (updates (shiftEnv env r) first k s').parts = (updates env (first + r) k s).parts ∧
+    (updates (shiftEnv env r) first k s').npid = (updates env (first + r) k s).npid ∧
+    ∃ L, (updates env (first + r) k s).records = s.records ++ L ∧
+      (updates (shiftEnv env r) first k s').records = s'.records ++ L.map (unshift r) ∧
+      ∀ x ∈ L, first + (r : Int) ≤ x.1
+  | 0, first, s, s', _, hp, hc => by
+    exact ⟨hp, hc, [], by simp [updates], by simp [updates], by simp⟩
+  | k + 1, first, s, s', hf, hp, hc => by
+    obtain ⟨hp1, hc1, L1, hL1, hL1', hb1⟩ := shift_update env r first hf s s' hp hc
+    obtain ⟨hp2, hc2, L2, hL2, hL2', hb2⟩ :=
+      shift_updates env r k (first + 1) _ _ (by omega) hp1 hc1
+    have e : first + 1 + (r : Int) = first + r + 1 := by omega
+    rw [e] at hp2 hc2 hL2 hb2
+    simp only [updates]
+    refine ⟨hp2, hc2, L1 ++ L2, ?_, ?_, ?_⟩
+    · rw [hL2, hL1, List.append_assoc]
+    · rw [hL2', hL1', List.map_append, List.append_assoc]
+    · intro x hx
+      rcases List.mem_append.1 hx with h | h
+      · exact hb1 x h
+      · have := hb2 x h; omega
+
+/-- the records of the first `N` steps carry step numbers below `N` -/
+theorem records_lt (env : RunEnv) : ∀ (N : Nat), ∀ x ∈ (stateAt env N).records, x.1 < (N : Int)
+  | 0 => by simp [stateAt, updates, empty]
+  | N + 1 => by
+    intro x hx
+    rw [stateAt_succ, update_records] at hx
+    have ih := records_lt env N
+    split at hx
+    · rcases List.mem_append.1 hx with h | h
+      · have := ih x h; push_cast; omega
+      · simp only [List.mem_singleton] at h
+        subst h; push_cast; omega
+    · have := ih x hx; push_cast; omega
+
+/-- a record holds living, freshly forced particles -/
+theorem specRecord_fix (env : RunEnv) (hid : ForceIdem env) (r : Nat) :
+    (specRecord env r).filter (·.alive) = specRecord env r ∧
+    (specRecord env r).map (env.force (r : Int)) = specRecord env r := by
+  constructor
+  · rw [specRecord_eq_full, List.filter_filter]; simp
+  · rw [specRecord_eq_full, full_eq]
+    conv_rhs => rw [← List.map_id (List.filter _ _)]
+    apply List.map_congr_left
+    intro p hp
+    obtain ⟨q, _, rfl⟩ := List.mem_map.1 (List.mem_filter.1 hp).1
+    simp [hid r q]
+
+/-- the constructor step of the restarted run reproduces the state after step `r` -/
+theorem warm_step0 (env : RunEnv) (hs : Sane env) (hid : ForceIdem env) (hsp : env.sparse = true)
+    (r : Nat) (hdue : env.due r = true) :
+    let s1 := stepBody (shiftEnv env r) 0 false
+      { parts := specRecord env r, npid := npidAt env r, log := [], records := [] }
+    s1.parts = (stateAt env (r + 1)).parts ∧ s1.npid = (stateAt env (r + 1)).npid ∧ s1.records = [] := by
+  obtain ⟨hp, hc⟩ := sparse_inv env hs hsp r
+  obtain ⟨hf1, hf2⟩ := specRecord_fix env hid r
+  intro s1
+  refine ⟨?_, ?_, ?_⟩
+  · rw [stateAt_succ, update_parts, (sparse_parts3 env hs hsp r _ hp hc).2 hdue]
+    simp [s1, stepBody, shiftEnv, assignPids, hsp, hf1, hf2, gstep, Function.comp_def]
+  · rw [(sparse_inv env hs hsp (r + 1)).2]
+    simp [s1, stepBody, shiftEnv, assignPids, npidAt, cnt]
+  · simp [s1, stepBody]
+
+/-- both runs, decomposed at the restart step -/
+theorem restart_decomp (env : RunEnv) (hs : Sane env) (hid : ForceIdem env) (hsp : env.sparse = true)
+    (N r : Nat) (hr : r < N) (hdue : env.due r = true) :
+    (warmRun (shiftEnv env r) (N - r) (specRecord env r) (npidAt env r)).parts = (env.coldRun N).parts ∧
+    (warmRun (shiftEnv env r) (N - r) (specRecord env r) (npidAt env r)).npid = (env.coldRun N).npid ∧
+    ∃ L, (env.coldRun N).records = (stateAt env (r + 1)).records ++ L ∧
+      (warmRun (shiftEnv env r) (N - r) (specRecord env r) (npidAt env r)).records = L.map (unshift r) ∧
+      ∀ x ∈ L, (r : Int) + 1 ≤ x.1 := by
+  obtain ⟨h1, h2, h3⟩ := warm_step0 env hs hid hsp r hdue
+  have hN : N = (r + 1) + (N - r - 1) := by omega
+  have hcold : env.coldRun N = updates env ((1 : Int) + r) (N - r - 1) (stateAt env (r + 1)) := by
+    unfold coldRun
+    conv_lhs => rw [hN, updates_split]
+    have e : (0 : Int) + ((r + 1 : Nat) : Int) = 1 + r := by push_cast; omega
+    rw [e]; rfl
+  obtain ⟨hp, hc, L, hL, hL', hb⟩ := shift_updates env r (N - r - 1) 1 _ _ (by omega) h1 h2
+  rw [← hcold] at hp hc hL
+  have hw : warmRun (shiftEnv env r) (N - r) (specRecord env r) (npidAt env r) =
+      updates (shiftEnv env r) 1 (N - r - 1) (stepBody (shiftEnv env r) 0 false
+        { parts := specRecord env r, npid := npidAt env r, log := [], records := [] }) := rfl
+  rw [hw]
+  refine ⟨hp, hc, L, hL, ?_, ?_⟩
+  · rw [hL', h3]; simp
+  · intro x hx; have := hb x hx; omega
+
 /-- **restart_transparent**: restarted from the record of output step `r` with the pid counter
     restored, the run writes, at every later output step, exactly the record the uninterrupted run
     writes (same particle set, pids, positions, variables — hence also the same newly released
@@ -54,27 +180,100 @@ theorem restart_transparent (env : RunEnv) (hs : Sane env) (hid : ForceIdem env)
     (N r : Nat) (hr : r < N) (hdue : env.due r = true) :
     (warmRun (shiftEnv env r) (N - r) (specRecord env r) (npidAt env r)).records =
       ((env.coldRun N).records.filter (fun x => decide ((r : Int) < x.1))).map (fun x => (x.1 - (r : Int), x.2)) := by
-  sorry
+  obtain ⟨_, _, L, hL, hL', hb⟩ := restart_decomp env hs hid hsp N r hr hdue
+  rw [hL', hL, List.filter_append]
+  have e1 : (stateAt env (r + 1)).records.filter (fun x => decide ((r : Int) < x.1)) = [] := by
+    rw [List.filter_eq_nil_iff]
+    intro x hx
+    have := records_lt env (r + 1) x hx
+    push_cast at this
+    simp only [decide_eq_true_eq]; omega
+  have e2 : L.filter (fun x => decide ((r : Int) < x.1)) = L := by
+    rw [List.filter_eq_self]
+    intro x hx
+    have := hb x hx
+    simp only [decide_eq_true_eq]; omega
+  rw [e1, e2]
+  rfl
 
 /-- the restarted run ends in the same state (particles and pid counter) as the uninterrupted run -/
 theorem restart_final_state (env : RunEnv) (hs : Sane env) (hid : ForceIdem env) (hsp : env.sparse = true)
     (N r : Nat) (hr : r < N) (hdue : env.due r = true) :
     (warmRun (shiftEnv env r) (N - r) (specRecord env r) (npidAt env r)).parts = (env.coldRun N).parts ∧
     (warmRun (shiftEnv env r) (N - r) (specRecord env r) (npidAt env r)).npid = (env.coldRun N).npid := by
-  sorry
+  obtain ⟨h1, h2, _⟩ := restart_decomp env hs hid hsp N r hr hdue
+  exact ⟨h1, h2⟩
+
+theorem foldl_max_ge (l : List Nat) : ∀ a : Nat, a ≤ l.foldl max a ∧ ∀ x ∈ l, x ≤ l.foldl max a := by
+  induction l with
+  | nil => intro a; simp
+  | cons b l ih =>
+    intro a
+    obtain ⟨h1, h2⟩ := ih (max a b)
+    simp only [List.foldl_cons, List.mem_cons]
+    refine ⟨by omega, ?_⟩
+    rintro x (rfl | hx)
+    · omega
+    · exact h2 x hx
+
+theorem foldl_max_le (M : Nat) (l : List Nat) : ∀ a : Nat, a ≤ M → (∀ x ∈ l, x ≤ M) → l.foldl max a ≤ M := by
+  induction l with
+  | nil => intro a ha _; simpa using ha
+  | cons b l ih =>
+    intro a ha h
+    simp only [List.foldl_cons]
+    have hb := h b (by simp)
+    exact ih (max a b) (by omega) (fun x hx => h x (by simp [hx]))
+
+/-- the pids in a record are among the pids handed out so far -/
+theorem record_pid_lt (env : RunEnv) (hs : Sane env) (r : Nat) (q : RP) (hq : q ∈ specRecord env r) :
+    q.pid < npidAt env r := by
+  rw [specRecord_eq_full] at hq
+  have h1 : q.pid ∈ (full env r).map (·.pid) := List.mem_map.2 ⟨q, (List.mem_filter.1 hq).1, rfl⟩
+  rw [full_pids env hs, full_length] at h1
+  exact List.mem_range.1 h1
 
 /-- **npid_from_record**: `max pid + 1` over a record equals the number of pids handed out
     whenever the most recently released particle is still in that record -/
 theorem npid_from_record (env : RunEnv) (hs : Sane env) (r : Nat) (p : RP)
     (hp : p ∈ specRecord env r) (hlast : p.pid + 1 = npidAt env r) :
     ((specRecord env r).map (·.pid)).foldl max 0 + 1 = npidAt env r := by
-  sorry
+  have hge := (foldl_max_ge ((specRecord env r).map (·.pid)) 0).2 p.pid (List.mem_map.2 ⟨p, hp, rfl⟩)
+  have hle := foldl_max_le p.pid ((specRecord env r).map (·.pid)) 0 (by omega) (by
+    intro x hx
+    obtain ⟨q, hq, rfl⟩ := List.mem_map.1 hx
+    have := record_pid_lt env hs r q hq
+    omega)
+  omega
+
+/-- a release row -/
+def witnessRow : RP :=
+  { pid := 0, x := 0, y := 0, z := 0, alive := true, active := true, vars := [], pvars := [] }
+
+/-- two particles released at step 0; the IBM kills the second one in the same step -/
+def witnessEnv : RunEnv :=
+  { release := fun n => if n = 0 then [witnessRow, witnessRow] else [],
+    force := fun _ p => p,
+    move := fun _ p => p,
+    ibm := fun n p => if n = 0 ∧ p.pid = 1 then { p with alive := false } else p,
+    due := fun _ => true,
+    sparse := true }
 
 /-- **restart_partial** (finding F12): if the most recently released particles are dead before
     the record is written, the record's `max pid + 1` is smaller than the number of pids handed
     out — a restart that only has the record would reuse those pids.  Witness: -/
 theorem restart_partial_witness :
     ∃ env : RunEnv, Sane env ∧ ((specRecord env 1).map (·.pid)).foldl max 0 + 1 < npidAt env 1 := by
-  sorry
+  refine ⟨witnessEnv, ?_, ?_⟩
+  · refine ⟨fun _ _ => rfl, fun _ _ h => h, ?_, fun _ _ => rfl, fun _ _ => rfl, ?_⟩
+    · intro n p h
+      show (if n = 0 ∧ p.pid = 1 then { p with alive := false } else p).alive = false
+      split
+      · rfl
+      · exact h
+    · intro n p
+      show (if n = 0 ∧ p.pid = 1 then { p with alive := false } else p).pid = p.pid
+      split <;> rfl
+  · simp [specRecord, releasedUpTo, npidAt, advance, advance1, witnessEnv, witnessRow, List.range_succ]
 
 end Ladim.C08
